@@ -183,6 +183,10 @@ pub fn gen_plan(property: &str, seed: u64, index: u64, tier: Tier) -> Plan {
                 }
                 let k = choose_move_seen(&mut rng, &pos, &legal, policy, None, &mut seen);
                 ops.push(Op::Make(k as u32));
+                if legal[k].double || legal[k].castle.is_some() || legal[k].promo.is_some() {
+                    // right after the moves whose bookkeeping is most fragile, ask at once
+                    ops.push(Op::Search(1));
+                }
                 pos = pos.make(&legal[k]);
                 stack.push(pos.clone());
             }
